@@ -215,6 +215,12 @@ def sequential(out, pid, bindir, vectors, dom, groups, only_type=None):
     out.extra["vectors_per_kind"] = dict(per_kind)
     out.extra["replays_per_type"] = dict(sorted(per_type.items()))
     out.extra["swap_arm_coverage"] = {k: dict(sorted(c.items())) for k, c in arms.items() if per_kind[k]}
+    out.extra["swap_arm_note"] = ("counts of vectors whose history contains a merge taking the arm, judged on the abstract contents: "
+                                  "map_* compares the number of keys of delta (from) and total (to), key_* the sizes of the two value "
+                                  "collections of a key present in both, key_vacant = key of delta absent from total. The concurrent types "
+                                  "compare per shard: whether the two keys share a shard (then as map_*) or not (then from is larger "
+                                  "exactly for key_vacant and not larger for a key present in both), both arms execute once all five "
+                                  "counters are positive; key renamings put either key first")
     out.extra["drift"] = {f"{ty}: {what}": c for (ty, what), c in sorted(drift.items())}
     return arms, per_kind
 
